@@ -29,6 +29,26 @@ type Case struct {
 	StoreOrder []int  `json:"storeOrder,omitempty"`
 	UnpubOrder []int  `json:"unpubOrder,omitempty"`
 	Note       string `json:"note,omitempty"`
+	// Versions, when present, are the protocol versions in force (first genesis must be 0); every operation is
+	// applied under the version its protocol-version stamp (CaseOp.PV) selects. Empty = one version.
+	Versions []VersionSpec `json:"versions,omitempty"`
+}
+
+// VersionSpec is one protocol version of a multi-version case: the versions differ in the maximum operation
+// time delta only.
+type VersionSpec struct {
+	Genesis      uint64 `json:"genesis"`
+	MaxTimeDelta uint64 `json:"maxTimeDelta"`
+}
+
+func (c *Case) versionOf(pv uint64) *VersionSpec {
+	var best *VersionSpec
+	for i := range c.Versions {
+		if c.Versions[i].Genesis <= pv && (best == nil || c.Versions[i].Genesis >= best.Genesis) {
+			best = &c.Versions[i]
+		}
+	}
+	return best
 }
 
 // NewCase builds a case from anchored operations.
@@ -85,6 +105,9 @@ func (c *Case) Descs() []*refmodel.Op {
 	out := make([]*refmodel.Op, len(c.Ops))
 	for i := range c.Ops {
 		d := c.Ops[i].Desc
+		if v := c.versionOf(c.Ops[i].PV); v != nil {
+			d.VersionDelta = v.MaxTimeDelta
+		}
 		out[i] = &d
 	}
 	return out
@@ -103,7 +126,17 @@ func (c *Case) Protocol() protocol.Protocol {
 
 // Client returns a protocol client of the real components for the case.
 func (c *Case) Client() *wire.Client {
-	return wire.NewClient(wire.Build(c.Protocol(), wire.Deps{}))
+	if len(c.Versions) == 0 {
+		return wire.NewClient(wire.Build(c.Protocol(), wire.Deps{}))
+	}
+	var vs []protocol.Version
+	for _, v := range c.Versions {
+		p := c.Protocol()
+		p.GenesisTime = v.Genesis
+		p.MaxOperationTimeDelta = v.MaxTimeDelta
+		vs = append(vs, wire.Build(p, wire.Deps{}))
+	}
+	return wire.NewClient(vs...)
 }
 
 // Model runs the reference model on the case.
